@@ -1,18 +1,20 @@
 ---------------------------- MODULE MCLogRolling ----------------------------
-(* Bounded instance of LogRolling: all histories of at most MaxEvents WriteBegin/Close events  *)
-(* (plus at most MaxCrashes crashes inside roll-overs) for every configuration of Configs.     *)
+(* Bounded instance of LogRolling: all histories of at most MaxEvents (MaxSize: MaxEventsM)     *)
+(* WriteBegin/Close events (plus at most MaxCrashes crashes inside roll-overs) for every       *)
+(* configuration of Configs.                                                                   *)
 (* AsBuilt = TRUE narrows the documented choices to what the implementation does (so that every *)
 (* generated transition can be replayed in the real code); AsBuilt = FALSE explores every      *)
 (* outcome the specification allows (properties only, no replay).                              *)
 (* States are identified up to renaming of message ids (VIEW): behaviour depends on lengths.   *)
 EXTENDS LogRolling, TLC, Json
-CONSTANTS MaxEvents, MaxCrashes, CLens, MLens, AsBuilt,
+CONSTANTS MaxEvents, MaxEventsM, MaxCrashes, CLens, MLens, AsBuilt,
           CountLimits, SizeLimits, Gens, WithSimple       \* configurations: limits x generation counts (+ Simple)
 VARIABLE act
 MCConfigs == {[kind |-> "counted", limit |-> l, G |-> g] : l \in CountLimits, g \in Gens}
              \cup {[kind |-> "maxsize", limit |-> l, G |-> g] : l \in SizeLimits, g \in Gens}
              \cup (IF WithSimple THEN {[kind |-> "simple", limit |-> 0, G |-> 1]} ELSE {})
 LensFor == IF kind = "maxsize" THEN MLens ELSE CLens
+MaxEv == IF kind = "maxsize" THEN MaxEventsM ELSE MaxEvents      \* bound on the WriteBegin/Close events of a history
 \* as built: MaxSize compares strictly, open() rolls a file whose limit is reached
 BuiltRollW == CASE kind = "counted" -> Len(files[0]) + 1 > limit
                 [] kind = "maxsize" -> ~(Bytes(files[0]) + pend.len + 1 < limit)
@@ -27,10 +29,10 @@ MCOpenBegin  == OpenBegin /\ act' = A("OpenBegin", 0, FALSE)
 MCRollStep   == (AsBuilt => BuiltRoll) /\ RollStep /\ act' = A("RollStep", NextRenameDest, TRUE)
 MCOpenEnd    == \E roll \in BOOLEAN : /\ (AsBuilt /\ pc = "ocheck" => IF G = 1 THEN roll = (BuiltRollO /\ files[0] # <<>>) ELSE ~roll /\ ~BuiltRollO)
                                       /\ OpenEnd(roll) /\ act' = A("OpenEnd", 0, roll)
-MCWriteBegin == \E len \in LensFor : nev < MaxEvents /\ WriteBegin(len) /\ act' = A("WriteBegin", len, FALSE)
+MCWriteBegin == \E len \in LensFor : nev < MaxEv /\ WriteBegin(len) /\ act' = A("WriteBegin", len, FALSE)
 MCWriteEnd   == \E roll \in BOOLEAN : /\ (AsBuilt /\ pc = "wcheck" => IF G = 1 THEN roll = (BuiltRollW /\ files[0] # <<>>) ELSE ~roll /\ ~BuiltRollW)
                                       /\ WriteEnd(roll) /\ act' = A("WriteEnd", 0, roll)
-MCClose      == nev < MaxEvents /\ Close /\ act' = A("Close", 0, FALSE)
+MCClose      == nev < MaxEv /\ Close /\ act' = A("Close", 0, FALSE)
 MCCrash      == crashes < MaxCrashes /\ Crash /\ act' = A("Crash", 0, FALSE)
 MCNext == MCOpenBegin \/ MCRollStep \/ MCOpenEnd \/ MCWriteBegin \/ MCWriteEnd \/ MCClose \/ MCCrash
 MCSpec == MCInit /\ [][MCNext]_<<vars, act>>
